@@ -32,7 +32,7 @@ import (
 // ---------- (H) histories
 
 type c14Op struct {
-	Kind string // cfg | new | build | kopt | compile | tostring
+	Kind string // cfg | new | build (Build+ParseProgram) | make (Build only) | parse (ParseProgram of the pending parser) | kopt | compile | tostring
 	Who  int    // builder 0/1, compiler 0/1
 	Arg  int
 }
@@ -47,17 +47,21 @@ func (o c14Op) String() string {
 		return b + "=NewBuilder"
 	case "build":
 		return fmt.Sprintf("%s.Build(in%d).ParseProgram", b, o.Arg)
+	case "make":
+		return fmt.Sprintf("p%s=%s.Build(in%d)", b, b, o.Arg)
+	case "parse":
+		return fmt.Sprintf("p%s.ParseProgram", b)
 	case "kopt":
 		return k + "." + c14KoptNames[o.Arg]
 	case "compile":
-		return fmt.Sprintf("%s.Compile(tree of %s)", k, "AB"[o.Arg:o.Arg+1])
+		return fmt.Sprintf("%s.Compile(%s)", k, []string{"tree of A", "tree of B", "previous tree of A"}[o.Arg])
 	}
 	return "debug.ToString(tree of " + "AB"[o.Arg:o.Arg+1] + ")"
 }
 
 var c14CfgNames = []string{"RegisterInfix(OP)", "RegisterPostfix(BANG)", "RegisterPrefix(PRE)", "UseStatementInterceptor(s1)", "UseExpressionInterceptor(re-entrant)", "WithTolerantMode", "WithSmartSemicolon", "UseStatementInterceptor(s2)"}
 var c14KoptNames = []string{"WithPrettyPrint(3 spaces,no semi)", "WithPrettyPrint()", "WithSourceMap()"}
-var c14Inputs = []string{"a OP b * c; x = n BANG", "PRE a\n(b) PRE c", "let", "f(function() { return - -a }) // c\nz BANG OP"}
+var c14Inputs = []string{"a OP b * c; x = n BANG", "PRE a\n(b) PRE c", "let", "f(function() { return - -a }) // c\n\n\n// section two\nz BANG OP"}
 
 type c14Builder struct {
 	lb    *lexer.Builder
@@ -69,29 +73,34 @@ type c14Builder struct {
 func newC14Builder() *c14Builder {
 	b := &c14Builder{lb: lexer.NewBuilder(), types: map[string]token.Type{}}
 	b.pb = parser.NewBuilder(b.lb)
+	return b
+}
+
+// plugToken registers a token type and installs a token interceptor that retypes the identifier of that
+// spelling. The closure captures only immutable values: a lexer built earlier is not affected by it (tokens
+// are read lazily during ParseProgram, so an interceptor reading mutable harness state would make a
+// pending parser depend on later harness calls).
+func (b *c14Builder) plugToken(name string) token.Type {
+	ty := b.lb.RegisterTokenType(name)
+	b.types[name] = ty
 	b.lb.UseTokenInterceptor(func(l *lexer.Lexer, next func() token.Token) token.Token {
 		t := next()
-		if t.Type == token.IDENT {
-			if ty, ok := b.types[t.Literal]; ok {
-				t.Type = ty
-			}
+		if t.Type == token.IDENT && t.Literal == name {
+			t.Type = ty
 		}
 		return t
 	})
-	return b
+	return ty
 }
 
 func (b *c14Builder) cfg(i int) {
 	switch i {
 	case 0:
-		b.types["OP"] = b.lb.RegisterTokenType("OP")
-		b.pb.RegisterInfixOperator(b.types["OP"], parser.PRODUCT+1, mkInfix)
+		b.pb.RegisterInfixOperator(b.plugToken("OP"), parser.PRODUCT+1, mkInfix)
 	case 1:
-		b.types["BANG"] = b.lb.RegisterTokenType("BANG")
-		b.pb.RegisterPostfixOperator(b.types["BANG"], mkPostfix)
+		b.pb.RegisterPostfixOperator(b.plugToken("BANG"), mkPostfix)
 	case 2:
-		b.types["PRE"] = b.lb.RegisterTokenType("PRE")
-		b.pb.RegisterPrefixOperator(b.types["PRE"], mkPrefix)
+		b.pb.RegisterPrefixOperator(b.plugToken("PRE"), mkPrefix)
 	case 3, 7:
 		name := "s1"
 		if i == 7 {
@@ -125,7 +134,36 @@ func c14Kopt(k *compiler.Compiler, i int) {
 
 func c14ObserveBuild(b *c14Builder, in int) (string, *ast.Program) {
 	b.log = nil
-	o := parseWith(b.pb, c14Inputs[in])
+	return c14Observe(b, parseWith(b.pb, c14Inputs[in]))
+}
+
+// c14Make builds a parser without running it; c14ObservePending runs it later.
+func c14Make(b *c14Builder, in int) (p *parser.Parser, pan string) {
+	defer func() {
+		if r := recover(); r != nil {
+			pan = panicText(r)
+		}
+	}()
+	return b.pb.Build(c14Inputs[in]), ""
+}
+
+func c14ObservePending(b *c14Builder, p *parser.Parser) (string, *ast.Program) {
+	b.log = nil
+	var o ParseOut
+	func() {
+		defer func() {
+			if r := recover(); r != nil {
+				o.Panic = panicText(r)
+			}
+		}()
+		o.Parser = p
+		o.Prog, o.Err = p.ParseProgram()
+		o.Errs = p.Errors()
+	}()
+	return c14Observe(b, o)
+}
+
+func c14Observe(b *c14Builder, o ParseOut) (string, *ast.Program) {
 	if o.Panic != "" {
 		return "panic: " + o.Panic, nil
 	}
@@ -178,7 +216,14 @@ func c14Exec(hist []c14Op) (kind, detail string, nobs int) {
 		cfg  []int // configuration ops of the builder at build time
 		in   int
 	}
-	var trees [2]*treeInfo
+	var trees [3]*treeInfo // tree of A, tree of B, previous tree of A
+	type pendingInfo struct {
+		b   *c14Builder // the builder object it was built from (NewBuilder may have replaced it since)
+		p   *parser.Parser
+		cfg []int
+		in  int
+	}
+	var pending [2]*pendingInfo
 	var bcfg [2][]int
 	var kcfg [2][]int
 	soloTree := func(ti *treeInfo) *ast.Program {
@@ -213,7 +258,37 @@ func c14Exec(hist []c14Op) (kind, detail string, nobs int) {
 			if got != want {
 				return "build-differs-from-solo", fmt.Sprintf("%s: observed %s; the same builder configuration used alone gives %s", where, core.Short(got, 400), core.Short(want, 400)), nobs
 			}
+			if o.Who == 0 {
+				trees[2] = trees[0]
+			}
 			trees[o.Who] = ti
+		case "make":
+			p, pan := c14Make(bs[o.Who], o.Arg)
+			if pan != "" {
+				return "build-panics", where + ": " + pan, nobs
+			}
+			pending[o.Who] = &pendingInfo{b: bs[o.Who], p: p, cfg: append([]int{}, bcfg[o.Who]...), in: o.Arg}
+		case "parse":
+			pi := pending[o.Who]
+			if pi == nil {
+				continue
+			}
+			pending[o.Who] = nil
+			got, prog := c14ObservePending(pi.b, pi.p)
+			nobs++
+			// a parser keeps the configuration it was BUILT with, whatever happened to its builder since
+			solo := newC14Builder()
+			for _, c := range pi.cfg {
+				solo.cfg(c)
+			}
+			want, _ := c14ObserveBuild(solo, pi.in)
+			if got != want {
+				return "parser-differs-from-solo", fmt.Sprintf("%s (built from in%d with configuration %v): observed %s; a parser built the same way and run at once gives %s", where, pi.in, pi.cfg, core.Short(got, 400), core.Short(want, 400)), nobs
+			}
+			if o.Who == 0 {
+				trees[2] = trees[0]
+			}
+			trees[o.Who] = &treeInfo{prog: prog, cfg: pi.cfg, in: pi.in}
 		case "compile", "tostring":
 			ti := trees[o.Arg]
 			if ti == nil || ti.prog == nil {
@@ -289,7 +364,13 @@ func c14Alphabet(reduced bool) (all []c14Op, observing []c14Op) {
 			o := c14Op{Kind: "build", Who: w, Arg: a}
 			all = append(all, o)
 			observing = append(observing, o)
+			if a == 1 || a == 3 {
+				all = append(all, c14Op{Kind: "make", Who: w, Arg: a})
+			}
 		}
+		o := c14Op{Kind: "parse", Who: w}
+		all = append(all, o)
+		observing = append(observing, o)
 	}
 	for w := 0; w < 2; w++ {
 		for a := range c14KoptNames {
@@ -298,7 +379,10 @@ func c14Alphabet(reduced bool) (all []c14Op, observing []c14Op) {
 			}
 			all = append(all, c14Op{Kind: "kopt", Who: w, Arg: a})
 		}
-		for a := 0; a < 2; a++ {
+		for a := 0; a < 3; a++ {
+			if reduced && a == 2 {
+				continue
+			}
 			o := c14Op{Kind: "compile", Who: w, Arg: a}
 			all = append(all, o)
 			observing = append(observing, o)
@@ -817,7 +901,7 @@ func c14Replay(pl json.RawMessage) (string, []core.Violation) {
 func init() {
 	core.Register(&core.PropSpec{
 		ID: "C14", Level: "model_checking",
-		Rule:     "(H) every history <= depth 4 (5 thorough, reduced alphabet) ending in an observation over 37 calls on two parser/lexer builder stacks and two compilers {NewBuilder, RegisterInfix/Postfix/Prefix with plugin token types, two order-observable statement interceptors, a re-entrant expression interceptor, WithTolerantMode, WithSmartSemicolon, Build(4 inputs)+ParseProgram, WithPrettyPrint x2, WithSourceMap, Compile(tree of A|B), debug.ToString}: each Build observation (errors, tree dump with positions, final context) and each Compile observation (code, mappings, names) equals the observation of the same configuration replayed on FRESH instances used alone; the tree dump is unchanged by Compile/ToString; Code with source map = Code without; debug.ToString = compact compilation. (S) schedules: the jobs of 4 scenarios (S1 distinct builders with different plugins/options/inputs, S2 one shared parser builder, S3 one shared tree compiled under different configurations + debug.ToString, S4 one shared configured compiler) run as threads of a cooperative scheduler on the overlay-instrumented library (yield points: every access to a package-level variable [granularity 0], + every store through a selector/index/pointer [1], + every function and closure entry [2]); iterative context bounding: ALL schedules with <= b preemptions are executed (quick tier, 2 jobs: b=3 at granularity 0; b=1 at granularities 1 and 2 on the full inputs; b=2 at granularity 1 on the full inputs for the shared-object scenarios S2-S4; b=2 at granularity 2 on one-expression inputs for S3 and S4, at granularity 1 for S1; 3 jobs: b=2 at granularity 0, b=1 at granularity 1 on the full inputs and at granularity 2 on one-expression inputs; thorough adds S2 at granularity 2 with b=2, 3 jobs with b=4 at granularity 0, S1 with b=2 at granularity 1, and b=3 / 3 jobs b=2 at granularity 2 for S3, S4); the exact task list and the time of each task are in the evidence file; each job's result must equal its result when run alone; a violating schedule is replayed and must reproduce before it is believed; a package-level variable written by one job and accessed by another is reported (the library has no synchronisation); package-level state invariance: after all jobs have run once, every package-level variable of the library is dumped, the jobs are run again on inputs of the same shapes with different spellings, and the dump must be unchanged (a cache keyed by input is shared mutable state even when it is synchronised). (R) complement, sampling, not the deciding step: the same jobs free-running on 16 goroutines under the race detector. states = histories + schedules executed; transitions = history steps + scheduling steps",
+		Rule:     "(H) every history <= depth 4 (5 thorough, reduced alphabet) ending in an observation over 47 calls on two parser/lexer builder stacks and two compilers {NewBuilder, RegisterInfix/Postfix/Prefix with plugin token types, two order-observable statement interceptors, a re-entrant expression interceptor, WithTolerantMode, WithSmartSemicolon, Build(4 inputs)+ParseProgram at once, Build alone and ParseProgram of the pending parser later (a parser keeps the configuration it was built with), WithPrettyPrint x2, WithSourceMap, Compile(tree of A | tree of B | previous tree of A), debug.ToString}: each Build observation (errors, tree dump with positions, final context) and each Compile observation (code, mappings, names) equals the observation of the same configuration replayed on FRESH instances used alone; the tree dump is unchanged by Compile/ToString; Code with source map = Code without; debug.ToString = compact compilation. (S) schedules: the jobs of 4 scenarios (S1 distinct builders with different plugins/options/inputs, S2 one shared parser builder, S3 one shared tree compiled under different configurations + debug.ToString, S4 one shared configured compiler) run as threads of a cooperative scheduler on the overlay-instrumented library (yield points: every access to a package-level variable [granularity 0], + every store through a selector/index/pointer [1], + every function and closure entry [2]); iterative context bounding: ALL schedules with <= b preemptions are executed (quick tier, 2 jobs: b=3 at granularity 0; b=1 at granularities 1 and 2 on the full inputs; b=2 at granularity 1 on the full inputs for the shared-object scenarios S2-S4; b=2 at granularity 2 on one-expression inputs for S3 and S4, at granularity 1 for S1; 3 jobs: b=2 at granularity 0, b=1 at granularity 1 on the full inputs and at granularity 2 on one-expression inputs; thorough adds S2 at granularity 2 with b=2, 3 jobs with b=4 at granularity 0, S1 with b=2 at granularity 1, and b=3 / 3 jobs b=2 at granularity 2 for S3, S4); the exact task list and the time of each task are in the evidence file; each job's result must equal its result when run alone; a violating schedule is replayed and must reproduce before it is believed; a package-level variable written by one job and accessed by another is reported (the library has no synchronisation); package-level state invariance: after all jobs have run once, every package-level variable of the library is dumped, the jobs are run again on inputs of the same shapes with different spellings, and the dump must be unchanged (a cache keyed by input is shared mutable state even when it is synchronised). (R) complement, sampling, not the deciding step: the same jobs free-running on 16 goroutines under the race detector. states = histories + schedules executed; transitions = history steps + scheduling steps",
 		Assume:   []string{"sequential consistency; scheduling points as listed (races between two accesses inside one function without a store or call in between are left to the race pass)", "solo replay = the builder's configuration calls without its earlier Build calls"},
 		QuickSec: 400, ThorSec: 3000, Run: c14Run, Replay: c14Replay,
 		Evals: "observations_compared_with_solo", Nontriv: "schedules", States: "histories", Trans: "schedule_steps",
